@@ -248,7 +248,8 @@ theorem put_step_core {d : Disk} (inv : Inv d) {fi : FImg} {now : Stamp} (a : Ro
   have hbit3 : (e3.getD 11 0 / 8) % 2 = 0 := by rw [q3]; exact b3
   have hbit4 : (e3.getD 11 0 / 16) % 2 = 0 := by rw [q3]; exact b4
   have hshown3 : shown e3 := ⟨⟨n6, q1⟩, n7, by omega, hbit3, n8⟩
-  have hgood3 : NameGood e3 := ⟨trimEnd B, trimEnd X, n1, n2, n4, n5, fun hd => by rw [hbit4] at hd; cases hd⟩
+  have hgood3 : NameGood e3 :=
+    ⟨trimEnd B, trimEnd X, n1, n2, n4, n5, (fun hd => by rw [hbit4] at hd; cases hd), (fresh_noSlash np).1, (fresh_noSlash np).2⟩
   have hpath3 : entPath [] e3 = absPath fi.fullPath := by
     unfold entPath
     simp only [List.isEmpty_nil, if_true]
